@@ -15,6 +15,7 @@ import Ztr.Model.Xml
 import Ztr.Model.Discovery
 import Ztr.Model.Streams
 import Ztr.Model.Ordered
+import Ztr.Model.Options
 /-!
 Line protocol between the Python harness and the executable model: one JSON object per line in,
 one JSON object per line out.  `op` selects the model component.  Unknown or malformed requests are
@@ -85,6 +86,19 @@ def opOrderedLayers (j : Json) : Except String Json := do
   let old := Ztr.Ordered.orderedLayersOld G f regs
   return Json.mkObj [("yielded", Json.arr (r.map (fun (n, l) => Json.arr #[jNats n, (l : Json)])).toArray),
     ("old", Json.arr (old.map (fun (n, l) => Json.arr #[jNats n, (l : Json)])).toArray)]
+
+/-- `cli_filters`: which patterns reach the filter predicates.  Patterns are numbers (0 = '.'); `test`, `module` =
+option values in order; `legacyModule`, `legacyTest` = the positional filters or null -/
+def opCliFilters (j : Json) : Except String Json := do
+  let optN (k : String) : Except String (Option Nat) := do
+    match j.getObjVal? k with
+    | .ok Json.null => return none
+    | .ok v => return some (← v.getNat?)
+    | .error _ => return none
+  let r : Ztr.Options.Raw Nat := { test := ← J.nats! j "test", module := ← J.nats! j "module",
+                                   legacyModule := ← optN "legacyModule", legacyTest := ← optN "legacyTest" }
+  let f := Ztr.Options.filters 0 r
+  return Json.mkObj [("module", jNats f.1), ("test", jNats f.2)]
 
 /-- `shuffle`: Shuffle.global_setup on `layers` = [[name code points, [test ids]], …] with the index
 stream `js`; also the seed hand-over. -/
@@ -602,6 +616,7 @@ def dispatch (j : Json) : Except String Json := do
   | "child_report" => opChildReport j
   | "streams" => opStreams j
   | "ordered_layers" => opOrderedLayers j
+  | "cli_filters" => opCliFilters j
   | _ => throw s!"unknown op {op}"
 
 partial def loop (h : IO.FS.Stream) (out : IO.FS.Stream) : IO Unit := do
